@@ -103,9 +103,10 @@ pub fn c08_configs(thorough: bool) -> Vec<EpCfg> {
                 c.alph.defer_pubrel = true;
                 if ver == Ver::V5 {
                     // refusal reasons: too large, Receive Maximum exceeded, alias out of range
-                    c.alph.als = vec![Al::No, Al::Reg(3)];
-                    c.connacks = vec![AckProf::basic(false), AckProf::basic(true), AckProf { rm: Some(1), tam: Some(2), mps: Some(8), ..AckProf::basic(true) }];
-                    c.connects = vec![ConnProf::basic(true), ConnProf::basic(false), ConnProf { rm: Some(1), tam: Some(2), mps: Some(8), ..ConnProf::basic(false) }];
+                    c.alph.als = vec![Al::No, Al::Reg(3), Al::Use(1)];
+                    c.alph.use_unbound = true;
+                    c.connacks = vec![AckProf::basic(false), AckProf::basic(true), AckProf { rm: Some(1), tam: Some(2), mps: Some(8), ..AckProf::basic(true) }, AckProf { tam: Some(2), ..AckProf::basic(true) }];
+                    c.connects = vec![ConnProf::basic(true), ConnProf::basic(false), ConnProf { rm: Some(1), tam: Some(2), mps: Some(8), ..ConnProf::basic(false) }, ConnProf { tam: Some(2), ..ConnProf::basic(true) }];
                 }
                 c.groups = vec!["c08"];
                 v.push(c);
